@@ -882,6 +882,69 @@ class World:
             self.viol(["C06"], "done-not-ok", f"{r.status}")
         return r
 
+    async def op_leave(self, ss, how="logout"):
+        """The session goes away: with LOGOUT, or the connection just ends at a
+        quiet moment ("drop": possibly while idling, possibly with updates
+        queued for it).  Everybody else must go on as if nothing had happened."""
+        if how == "logout":
+            if ss.idling:
+                await self.op_done(ss)
+            ss.view = None
+            r = await ss.s.cmd("LOGOUT")
+            self.note(f"{ss.name}: LOGOUT -> {r.status}")
+            if r.status != "OK":
+                self.viol(["C06"], "logout-not-answered", f"{ss.name}: {r.status}")
+            if not any(x.kind == "cond" and x.name == "BYE" or (getattr(x, "name", None) == "BYE") for x in r.responses):
+                self.stats["logout_without_bye"] += 1
+        else:
+            ss.s.eof()
+            self.note(f"{ss.name}: connection ends ({'idling' if ss.idling else 'quiet'})")
+        ss.dead = True
+        ss.view = None
+        ss.selected = None
+        ss.idling = False
+        if ss in self.sessions:
+            self.sessions.remove(ss)
+        await self.rig.settle()
+        await self.rig.advance(1)
+        self.stats["left:" + how] += 1
+
+    async def op_drop_midcmd(self, ss, rnd):
+        """An extra client (not part of the model) starts a long read-only
+        command in the mailbox `ss` has selected, reads slowly so the command
+        stays executing, and then its connection ends.  `ss` follows with a
+        command that conflicts with the abandoned one: it must be answered."""
+        import asyncio
+
+        name = ss.selected
+        x = self.rig.session("Y")
+        r = await x.cmd("EXAMINE " + wire_name(name))
+        if not r.ok:
+            return
+        ev = asyncio.Event()
+        x.writer.stall_ev = ev
+        await x.cmd(rnd.choice(["FETCH 1:* (FLAGS BODY.PEEK[])", "UID FETCH 1:* (UID FLAGS BODY.PEEK[HEADER])", "UID SEARCH TEXT nothing-like-this", "FETCH 1:* (UID INTERNALDATE RFC822.SIZE)"]), wait=False)
+        await self.rig.settle()
+        x.eof()
+        self.note(f"Y: connection ends while its command is executing in {name}")
+        if rnd.random() < 0.5:
+            ev.set()
+            x.writer.stall_ev = None
+        await self.rig.settle()
+        self.stats["dropped_mid_command"] += 1
+        try:
+            if ss.view is not None and len(ss.view) and not ss.readonly:
+                n = len(ss.view)
+                await self.op_store(ss, [rnd.randint(1, n)], rnd.choice(["add", "remove"]), [rnd.choice(["\\Flagged", "kw1", "\\Deleted"])])
+                if rnd.random() < 0.5:
+                    await self.op_expunge(ss)
+            else:
+                await self.op_noop(ss)
+        finally:
+            ev.set()
+            x.writer.stall_ev = None
+        await self.rig.advance(3)
+
     async def op_expunge(self, ss, uids=None):
         b = self.boxes[ss.selected]
         await self.learn_uids(b)
@@ -989,6 +1052,46 @@ class World:
         self.note(f"external: deliver {n} to {name} unseen={flags}")
         self.stats["deliveries"] += 1
         self.stats["delivered_msgs"] += n
+        return new
+
+    async def deliver_torn(self, name, n=2):
+        """A delivery during which the server looks at the folder while the
+        agent is half-way through rewriting .mh_sequences (a cut-off range: the
+        resync that sees it fails), and again once the agent is done.  The
+        messages must then be announced like any other delivery."""
+        b = self.boxes[name]
+        msgs, new, flags = [], [], []
+        for i in range(n):
+            cid, raw = self.cids.make(self.rnd, tag="ext")
+            msgs.append(raw.replace(b"\r\n", b"\n"))
+            flags.append(True)
+            m = M(None, cid, [])
+            m.ext = True
+            new.append(m)
+        folder = "inbox" if name == "INBOX" else name
+        st = self.rig.deliver_torn_begin(folder, msgs, flags)
+        self.note(f"external: deliver {n} to {name}, .mh_sequences half-written")
+        self.no_probe = True
+        try:
+            how = self.rnd.choice(["poll", "poll", "stranger"])
+            if how == "stranger":
+                z = self.rig.session("Z")
+                r = await z.cmd("EXAMINE " + wire_name(name))
+                self.note(f"Z: EXAMINE {name} -> {r.status}")
+                if not z.writer.closed:
+                    await z.cmd("LOGOUT")
+            await self.rig.advance(self.rnd.choice([6, 21]))
+        finally:
+            self.no_probe = False
+        self.rig.deliver_torn_end(st)
+        b.msgs.extend(new)
+        self.note(f"external: .mh_sequences of {name} complete")
+        self.stats["deliveries"] += 1
+        self.stats["torn_deliveries"] += 1
+        self.stats["delivered_msgs"] += n
+        await self.rig.advance(self.rnd.choice([6, 21]))
+        for s2 in self.sessions:
+            s2.s.pump()
         return new
 
     # ------------------------------------------------------------ namespace
